@@ -38,10 +38,11 @@ CHECKS = {
              "the collection tag) and GET/HEAD (304) likewise, and the replace_etag/etag arguments of all three stores. "
              "Header grid is exhaustive through the real function; HTTP histories (GET and HEAD, one or both "
              "conditional headers, every path read back under matching and non-matching conditions) run through "
-             "both front ends.",
+             "both front ends. "
+             "The precondition gates of PutMethod.handle, DeleteMethod.handle and _do_get (the header reads and the 412/304 tests) are TRANSLATED too and proved equal to the model's tests (never raising).",
         note="translator (harness/translate.py) is trusted for etag_matches; handler and front-end header plumbing are "
              "tied by correspondence (sampling) — the WSGI/aiohttp adapters are exercised, not proved.",
-        tech="Python->Lean translation + Lean 4 proof against an RFC 7232 spec + differential correspondence",
+        tech="Python->Lean translation (etag_matches, handler gates) + Lean 4 proof against an RFC 7232 spec + differential correspondence",
         ref="5/C03"),
     "C15": dict(
         text="The configparser file format is modelled in Lean (write + read, validated against CPython on >=5e4 "
@@ -70,10 +71,11 @@ CHECKS = {
         text="Proof that the tree diff behind sync-collection is exact (member reported changed/removed iff it differs/"
              "vanished; replaying the report on the old state yields the new one; equal states give an empty report; an "
              "unknown token is an error; issued tokens stay valid as the object store only grows). Tied to /repo by "
-             "histories in which every issued token is queried at every later step.",
+             "histories in which every issued token is queried at every later step. "
+             "GitStore.iter_changes (a generator diffing two listings through a dict) is TRANSLATED from /repo on every run and proved to yield exactly the model's change list on the listings of any two trees (no KeyError/AssertionError).",
         note="store-level iter_changes is modelled; the HTTP rendering of the report is tied by correspondence at the "
              "HTTP level; tokens are content-addressed trees (SHA-1 collision-freeness).",
-        tech="Lean 4 algebraic proof of the diff + differential correspondence (all token pairs)",
+        tech="Python->Lean translation (iter_changes) + Lean 4 algebraic proof of the diff + differential correspondence (all token pairs)",
         ref="5/C07"),
     "C08": dict(
         text="Tag = content-addressed tree: equal tags iff equal versioned contents is proved by map extensionality; "
